@@ -185,7 +185,7 @@ package client
 //@ at gp assert [asks-for-start-and-end] gp.path == "/ct/v1/get-entries" && has(gp.params, "start") && has(gp.params, "end")
 
 //@ func (*LogClient).GetEntries
-//@ props C12
+//@ props C12 C06 C07
 //@ arith int
 //@ site GetRawEntries#1 as raw
 //@ site LogEntryFromLeaf#1 as le
@@ -195,6 +195,8 @@ package client
 //@ ensures [fetch-error-passed-on] raw.res1 != nil ==> result1 == raw.res1 && len(result0) == 0
 //@ ensures [one-entry-per-leaf-on-success] result1 == nil ==> raw.res1 == nil && len(result0) == len(after(raw, raw.res0.Entries))
 //@ ensures [a-fatal-entry-error-fails-the-whole-call] isf.called && isf.res ==> len(result0) == 0 && result1 != nil
+//@ ensures [only-a-failed-fetch-or-a-fatal-entry-error-fails-the-call] result1 != nil ==> raw.res1 != nil || (isf.called && isf.res)
+//@ at isf assert [the-entry-parsers-own-error-is-classified] isf.err == le.res1
 //@ at le assert [entry-index-counts-from-start] start + i <= 9223372036854775807 ==> le.index == start + i
 
 //@ func New
